@@ -182,7 +182,7 @@ func (ex *Exec) verifyFunc(fn *ssa.Function, c *Contract) {
 			}
 		}
 		for _, e := range c.Ensures {
-			if !ex.active(e.Props) {
+			if !ex.active(e.Props) || e.Kind == "assumes" {
 				continue
 			}
 			t, err := ex.evalSpecBool(e.Expr, post)
